@@ -137,6 +137,9 @@ type srvEmit struct {
 	replyDelay time.Duration
 	duplicate  bool // send the ACK twice
 	binary     int  // number of attachments in the ACK
+	// unencodable: the emit carries a value that cannot be encoded (a channel): nothing goes out, and an ack
+	// given with a timeout still gets its one call (the timeout)
+	unencodable bool
 }
 
 // staleAck: an acknowledgement that belongs to a PREVIOUS session of the same client arrives on its new
@@ -262,6 +265,10 @@ func serverSide(name string, emits []srvEmit, wrongID bool, cut time.Duration, b
 				logs[i].add(fmt.Sprintf("%s|%x,%x", errStr(err), []byte(b), []byte(c)))
 			}
 			switch {
+			case em.unencodable && em.timeout:
+				sock.Timeout(T).Emit(em.ev, make(chan int), cbT)
+			case em.unencodable:
+				sock.Emit(em.ev, make(chan int), cb)
 			case em.timeout && em.binary > 0:
 				sock.Timeout(T).Emit(em.ev, "x", cbBinT)
 			case em.timeout:
@@ -360,11 +367,111 @@ func serverSide(name string, emits []srvEmit, wrongID bool, cut time.Duration, b
 	return sc
 }
 
+// ---------------------------------------------------------------- 2b. the reply on the wire
+//
+// The peer is a protocol-level client (any implementation): it sends events that ask for an acknowledgement,
+// the server's handlers call their ack functions with 0, 1, 2 or binary arguments. Exactly one ACK frame per
+// event must go out, to the namespace the event came from, with the event's ack id (the full uint64 range),
+// and its payload is the JSON ARRAY of the arguments - `[]` for an acknowledgement without arguments (other
+// implementations refuse anything that is not an array as a parse error and drop the connection).
+func handlerAcksWire(name, ns string, bound int) *vx.Scenario {
+	sc := &vx.Scenario{Name: name, Bound: bound, Horizon: time.Minute}
+	sc.Body = func(e *vsched.Exec) func() vx.Result {
+		srv := sio.NewServer(nil)
+		ready := false
+		var sv vsched.Var
+		srv.Of(ns).OnConnection(func(s sio.ServerSocket) {
+			s.OnEvent("none", func(ack func()) { ack() })
+			s.OnEvent("one", func(ack func(string)) { ack("x") })
+			s.OnEvent("two", func(a int, ack func(int, []any)) { ack(a+1, []any{}) })
+			s.OnEvent("nil", func(ack func(any)) { ack(nil) })
+			s.OnEvent("bin", func(ack func(sio.Binary, string)) { ack(sio.Binary{7, 8}, "t") })
+			sv.Do(func() { ready = true })
+		})
+		vsched.SetExploring(false)
+		f := vrig.NewFakeEIO(srv, "c03w")
+		f.ConnectNS(ns)
+		vsched.Await(func() bool { return ready })
+		vsched.SetExploring(true)
+		pfx := ""
+		if ns != "/" {
+			pfx = ns + ","
+		}
+		type want struct{ id, payload string }
+		wants := []want{
+			{"0", `[]`}, {"7", `["x"]`}, {"18446744073709551615", `[5,[]]`}, {"9", `[null]`}, {"10", `[{"_placeholder":true,"num":0},"t"]`}, {"18446744073709551614", `[]`},
+		}
+		f.In("2" + pfx + wants[0].id + `["none"]`)
+		f.In("2" + pfx + wants[1].id + `["one"]`)
+		f.In("2" + pfx + wants[2].id + `["two",4]`)
+		f.In("2" + pfx + wants[3].id + `["nil"]`)
+		f.In("2" + pfx + wants[4].id + `["bin"]`)
+		f.In("2" + pfx + wants[5].id + `["none"]`)
+		vrig.Settle(time.Second)
+		return func() vx.Result {
+			var r vx.Result
+			got := map[string][]string{}
+			var acks []string
+			for i, fr := range f.Frames {
+				if fr.Binary {
+					continue
+				}
+				t := fr.Data
+				if !strings.HasPrefix(t, "3") && !strings.HasPrefix(t, "61-") {
+					continue
+				}
+				acks = append(acks, t)
+				body := strings.TrimPrefix(strings.TrimPrefix(t, "3"), "61-")
+				if pfx != "" {
+					if !strings.HasPrefix(body, pfx) {
+						r.Violate("server ack on the wire: acknowledgement sent to another namespace than the event came from", "frame %q, namespace %s", t, ns)
+						continue
+					}
+					body = strings.TrimPrefix(body, pfx)
+				}
+				j := 0
+				for j < len(body) && body[j] >= '0' && body[j] <= '9' {
+					j++
+				}
+				id, payload := body[:j], body[j:]
+				if strings.HasPrefix(t, "61-") {
+					if i+1 >= len(f.Frames) || !f.Frames[i+1].Binary || f.Frames[i+1].Data != string([]byte{7, 8}) {
+						r.Violate("server ack on the wire: binary acknowledgement not followed by its attachment", "frame %q", t)
+					}
+				}
+				got[id] = append(got[id], payload)
+			}
+			r.Outcome = fmt.Sprint(len(acks))
+			for _, w := range wants {
+				g := got[w.id]
+				switch {
+				case len(g) == 0:
+					r.Violate("server ack on the wire: no ACK frame for an event whose handler acknowledged", "namespace %s, ack id %s: ACK frames sent %q", ns, w.id, acks)
+				case len(g) > 1:
+					r.Violate("server ack on the wire: more than one ACK frame for one event", "namespace %s, ack id %s: %q", ns, w.id, g)
+				case g[0] != w.payload:
+					key := "server ack on the wire: payload is not the JSON array of the acknowledgement's arguments"
+					if !strings.HasPrefix(g[0], "[") {
+						key = "server ack on the wire: payload of an ACK frame is not a JSON array (protocol v5: other implementations refuse it)"
+					}
+					r.Violate(key, "namespace %s, ack id %s: payload %q, expected %q; ACK frames sent %q", ns, w.id, g[0], w.payload, acks)
+				}
+			}
+			return r
+		}
+	}
+	return sc
+}
+
 // ---------------------------------------------------------------- 3. client side
 
 type payload struct{ attachments int }
 
 func (p payload) args() []any {
+	if p.attachments < 0 {
+		// cannot be encoded (encoding/json refuses channels): nothing is sent, the ack still gets its timeout
+		return []any{"x", make(chan int)}
+	}
 	out := []any{"x"}
 	for i := 0; i < p.attachments; i++ {
 		out = append(out, sio.Binary{byte(i), 0xAB})
@@ -400,6 +507,9 @@ func clientOffline(name string, payloads []payload, connectLater bool, bound int
 			if p.attachments > 0 {
 				ev = fmt.Sprintf("q%d", p.attachments)
 			}
+			if p.attachments < 0 {
+				ev = "never" // (no handler: nothing may arrive anyway)
+			}
 			args := append(p.args(), func(err error, s string) { logs[i].add(errStr(err) + "|" + s) })
 			sock.Timeout(T).Emit(ev, args...)
 		}
@@ -422,7 +532,11 @@ func clientOffline(name string, payloads []payload, connectLater bool, bound int
 			var out []string
 			for i := range payloads {
 				out = append(out, fmt.Sprint(logs[i].calls))
-				judgeTimeoutAck(&r, fmt.Sprintf("%s emit#%d (%d attachments, buffered offline)", name, i, payloads[i].attachments), "client offline", logs[i].calls, "", false, true)
+				what := fmt.Sprintf("%s emit#%d (%d attachments, buffered offline)", name, i, payloads[i].attachments)
+				if payloads[i].attachments < 0 {
+					what = fmt.Sprintf("%s emit#%d (an argument that cannot be encoded)", name, i)
+				}
+				judgeTimeoutAck(&r, what, "client offline", logs[i].calls, "", false, true)
 			}
 			sort.Strings(srvGot)
 			out = append(out, fmt.Sprint(srvGot, after.calls))
@@ -501,6 +615,9 @@ func clientOnline(name string, delays []time.Duration, attachments int, cut time
 				sock.Timeout(T).Emit("qb", i, sio.Binary{1, 2}, func(err error, s string, b sio.Binary) {
 					logs[i].add(fmt.Sprintf("%s|%s", errStr(err), s))
 				})
+			} else if attachments < 0 && i == 0 {
+				// the first emit carries an argument that cannot be encoded: nothing goes out, its ack times out
+				sock.Timeout(T).Emit("q", i, make(chan int), func(err error, s string) { logs[i].add(errStr(err) + "|" + s) })
 			} else {
 				sock.Timeout(T).Emit("q", i, func(err error, s string) { logs[i].add(errStr(err) + "|" + s) })
 			}
@@ -520,6 +637,9 @@ func clientOnline(name string, delays []time.Duration, attachments int, cut time
 				cutBefore := cut > 0 && (d < 0 || cut <= d)
 				mayReply := d >= 0 && (early || (d <= T && !(cut > 0 && cut < d)))
 				mayTimeout := early || d < 0 || d >= T || cutBefore
+				if attachments < 0 && i == 0 {
+					mayReply, mayTimeout = false, true
+				}
 				judgeTimeoutAck(&r, fmt.Sprintf("%s emit#%d delay=%v", name, i, d), "client online", logs[i].calls, fmt.Sprintf("r%d", i), mayReply, mayTimeout)
 			}
 			if n := sio.VerifPendingAcks(sock); n != 0 && !early {
@@ -578,6 +698,10 @@ func scenariosMode(tier string, early bool) []*vx.Scenario {
 		serverSide("server/timeout-duplicate-at-T", []srvEmit{{ev: "a", timeout: true, reply: "ra", replyDelay: T, duplicate: true}}, false, 0, b1, early),
 		serverSide("server/binary-reply", []srvEmit{{ev: "a", reply: "-", binary: 2}}, false, 0, b1, early),
 		serverSide("server/binary-timeout-at-T", []srvEmit{{ev: "a", timeout: true, reply: "-", binary: 2, replyDelay: T}}, false, 0, b1, early),
+		serverSide("server/timeout-unencodable-argument", []srvEmit{{ev: "a", timeout: true, unencodable: true}}, false, 0, b1, early),
+		serverSide("server/unencodable-then-plain-reply", []srvEmit{{ev: "a", timeout: true, unencodable: true}, {ev: "b", reply: "rb"}}, false, 0, b1, early),
+		handlerAcksWire("server/handler-acks-on-the-wire/root", "/", b1),
+		handlerAcksWire("server/handler-acks-on-the-wire/namespace", "/admin", b1),
 		serverSide("server/3-outstanding", []srvEmit{{ev: "a", reply: "ra"}, {ev: "b", timeout: true, reply: "rb", replyDelay: T}, {ev: "c", timeout: true}}, false, 0, b1, early),
 		serverSide("server/2-outstanding-swapped", []srvEmit{{ev: "a", timeout: true, reply: "ra", replyDelay: 2 * time.Second}, {ev: "b", timeout: true, reply: "rb", replyDelay: time.Second}}, true, 0, b1, early),
 		serverSide("server/cut-mid-flight", []srvEmit{{ev: "a", timeout: true, reply: "ra", replyDelay: 3 * time.Second}, {ev: "b", reply: "rb", replyDelay: 3 * time.Second}}, false, 2*time.Second, b1, early),
@@ -588,12 +712,15 @@ func scenariosMode(tier string, early bool) []*vx.Scenario {
 		clientOffline("client-offline/3-attachments", []payload{{3}}, true, b2, early),
 		clientOffline("client-offline/two-emits", []payload{{1}, {0}}, true, b2, early),
 		clientOffline("client-offline/never-connects", []payload{{2}, {0}}, false, b2, early),
+		clientOffline("client-offline/unencodable-argument", []payload{{-1}}, true, b2, early),
+		clientOffline("client-offline/unencodable-then-text", []payload{{-1}, {0}}, true, b2, early),
 
 		clientOnline("client-online/ack-at-once", []time.Duration{0}, 0, 0, b2, early),
 		clientOnline("client-online/ack-at-T", []time.Duration{T}, 0, 0, b2, early),
 		clientOnline("client-online/ack-late", []time.Duration{T + time.Second}, 0, 0, b2, early),
 		clientOnline("client-online/never", []time.Duration{-1}, 0, 0, b2, early),
 		clientOnline("client-online/binary-at-T", []time.Duration{T}, 1, 0, b2, early),
+		clientOnline("client-online/unencodable-argument-then-ack-at-once", []time.Duration{0, 0}, -1, 0, b2, early),
 		clientOnline("client-online/3-outstanding", []time.Duration{time.Second, T, -1}, 0, 0, b2, early),
 		clientOnline("client-online/cut-mid-flight", []time.Duration{3 * time.Second, -1}, 0, 2*time.Second, b2, early),
 	)
